@@ -252,6 +252,10 @@ def default_inline(ctx):
                 target = m.value
         if target is None or target.qualname in known:
             return None
+        if getattr(target, 'decorators', None):
+            return None            # a decorated helper (memoised, wrapped, ...) is not its body
+        if any(isinstance(n, (ast.Yield, ast.YieldFrom, ast.Global, ast.Nonlocal)) for n in ast.walk(target.node)):
+            return None
         ctx.functions.add(target.qualname)
         return target
     return resolve
